@@ -6,6 +6,7 @@ package ekit
 
 import (
 	"fmt"
+	"net"
 	"os"
 	"path/filepath"
 	"sync"
@@ -53,7 +54,13 @@ func Stream(unix bool, sndCap, rcvCap int) (*nbio.Conn, *vsys.Peer) {
 	if unix {
 		typ = nbio.ConnTypeUnix
 	}
-	return nbio.VerifNewConn(fd, typ, nil, nil), peer
+	var la, ra net.Addr
+	if unix {
+		la, ra = &net.UnixAddr{Net: "unix", Name: "/sim/server"}, &net.UnixAddr{Net: "unix", Name: "@"}
+	} else {
+		la, ra = &net.TCPAddr{IP: net.IPv4(127, 0, 0, 1), Port: 80}, &net.TCPAddr{IP: net.IPv4(127, 0, 0, 1), Port: 40000 + fd}
+	}
+	return nbio.VerifNewConn(fd, typ, la, ra), peer
 }
 
 // Pattern is the payload byte at offset off of call id.
